@@ -117,7 +117,13 @@ def from_generic(base, args, typevars, conv, is_ellipsis, is_empty_tuple, lit):
   if base == "Callable":
     return ("callable",)
   if base == "Literal":
-    return mk_union([("literal", lit(a)) for a in args])
+    out = []
+    for a in args:
+      try:
+        out.append(("literal", lit(a)))
+      except (ValueError, SyntaxError, TypeError):
+        out.append(ANY)    # an enum member (Literal[Color.RED]): not a literal Python value
+    return mk_union(out)
   if base in ("Annotated", "Final", "ClassVar"):
     return conv(args[0])
   return ("gen", base, tuple(conv(a) for a in args))
